@@ -94,6 +94,51 @@ Definition ser_xpub (version : bytes) (depth : Z) (parent_fp : bytes) (i : Z) (k
 Definition ser_xprv (version : bytes) (depth : Z) (parent_fp : bytes) (i : Z) (k : xprv) : bytes :=
   version ++ [depth] ++ parent_fp ++ ser32 i ++ snd k ++ ([0] ++ ser256 (fst k)).
 
+(* ---- The key tree ----
+   "CKDpriv(CKDpriv(CKDpriv(m,3H),2),5)" is written m/3H/2/5.  A node of the tree is an extended
+   private key together with the three bookkeeping fields the serialization format asks for:
+   "1 byte: depth: 0x00 for master nodes, 0x01 for level-1 derived keys, ....";
+   "4 bytes: the fingerprint of the parent's key (0x00000000 if master key)";
+   "4 bytes: child number. This is ser32(i) for i in xi = xpar/i, with xi the key being
+   serialized. (0x00000000 if master key)". *)
+Record node := { n_key : xprv; n_depth : Z; n_pfp : bytes; n_num : Z }.
+Definition master_node (S : bytes) : option node :=
+  match master S with
+  | Some k => Some {| n_key := k; n_depth := 0; n_pfp := [0;0;0;0]; n_num := 0 |}
+  | None => None
+  end.
+Definition child_node (p : node) (i : Z) : option node :=
+  match CKDpriv (n_key p) i with
+  | Some k => Some {| n_key := k; n_depth := n_depth p + 1;
+                      n_pfp := fingerprint (point (fst (n_key p))); n_num := i |}
+  | None => None
+  end.
+Fixpoint descend (p : node) (path : list Z) : option node :=
+  match path with
+  | [] => Some p
+  | i :: r => match child_node p i with Some c => descend c r | None => None end
+  end.
+(* the same tree walked from an extended PUBLIC key: N(m)/a/b/c = CKDpub(CKDpub(CKDpub(M,a),b),c) *)
+Record pnode := { pn_key : xpub; pn_depth : Z; pn_pfp : bytes; pn_num : Z }.
+Definition child_pnode (p : pnode) (i : Z) : option pnode :=
+  match CKDpub (pn_key p) i with
+  | Some k => Some {| pn_key := k; pn_depth := pn_depth p + 1;
+                      pn_pfp := fingerprint (fst (pn_key p)); pn_num := i |}
+  | None => None
+  end.
+Fixpoint descend_pub (p : pnode) (path : list Z) : option pnode :=
+  match path with
+  | [] => Some p
+  | i :: r => match child_pnode p i with Some c => descend_pub c r | None => None end
+  end.
+Definition ser_pnode (version : bytes) (nd : pnode) : bytes :=
+  ser_xpub version (pn_depth nd) (pn_pfp nd) (pn_num nd) (pn_key nd).
+
+Definition ser_node_priv (version : bytes) (nd : node) : bytes :=
+  ser_xprv version (n_depth nd) (n_pfp nd) (n_num nd) (n_key nd).
+Definition ser_node_pub (version : bytes) (nd : node) : bytes :=
+  ser_xpub version (n_depth nd) (n_pfp nd) (n_num nd) (Neuter (n_key nd)).
+
 End Bip32.
 
 (* ---- SLIP-0132 registered version bytes (public, private), Bitcoin mainnet and testnet ---- *)
